@@ -584,17 +584,18 @@ class FSTView:
         """
 
         start, _, len_before, idx_start, idx_stop = self._fixup_item_indices(idx)
+        base_cls = self.base.a.__class__
 
         if idx_stop is not None:  # slice
             self.base = self.base._put_slice(code, start + idx_start, start + idx_stop, self.field)
 
-            if self._stop is not None:
+            if self._stop is not None and self.base.a.__class__ is base_cls:  # if container was normalized to something else then our field is gone
                 self._stop += self._len_field() - len_before
 
         elif not isinstance(idx_start, fst.FST):  # single item child of this view
             self.base = self.base._put_one(code, start + idx_start, self.field, ret_child=False)
 
-            if self._stop is not None:
+            if self._stop is not None and self.base.a.__class__ is base_cls:  # if container was normalized to something else then our field is gone
                 self._stop += self._len_field() - len_before
 
         else:  # the actual node found for the str search
